@@ -870,8 +870,9 @@ fn do_command_substitution_for_dollar(sh: &mut Shell, tokens: &mut types::Tokens
                     cr
                 }
                 Err(e) => {
+                    // an invalid command yields an empty replacement
                     println_stderr!("cicada: {}", e);
-                    continue;
+                    types::CommandResult::new()
                 }
             };
 
@@ -920,8 +921,9 @@ fn do_command_substitution_for_dot(sh: &mut Shell, tokens: &mut types::Tokens) {
                     _cr
                 }
                 Err(e) => {
+                    // an invalid command yields an empty replacement
                     println_stderr!("cicada: {}", e);
-                    continue;
+                    types::CommandResult::new()
                 }
             };
 
@@ -968,8 +970,9 @@ fn do_command_substitution_for_dot(sh: &mut Shell, tokens: &mut types::Tokens) {
                             _cr
                         }
                         Err(e) => {
+                            // an invalid command yields an empty replacement
                             println_stderr!("cicada: {}", e);
-                            continue;
+                            types::CommandResult::new()
                         }
                     };
 
